@@ -308,6 +308,7 @@ class ConnHarness:
         self.with_cert = self.peer_der is not None
         self.tr = FakeTransport(self.loop, self.proto, peername=self.PEER, auto_lost=False, peer_der=self.peer_der)
         self.escaped = []          # exceptions that escaped a protocol callback
+        self.t_start = self.loop.time()
         v, e = self.loop.call(self.proto.connection_made, self.tr)
         if e:
             self.escaped.append(e)
@@ -337,6 +338,7 @@ class ConnHarness:
         if act == "Data":
             chunk = self.stream[self.delivered:arg]
             self.delivered = arg
+            self.t_last_data = self.loop.time()
             if self.tr.closing and not self.tr.lost:
                 # only the PyOpenSSL pump delivers after close: it calls the inner protocol directly
                 v, e = self.loop.call(self._pump_feed, chunk)
@@ -413,12 +415,21 @@ class ConnHarness:
         return {
             "wire": parse_wire(self.tr.wire),
             "tp": "lost" if self.tr.lost else ("closing" if self.tr.closing else "open"),
-            "timer": "armed" if self.loop.next_timer() is not None else "notarmed",
+            "timer": "armed" if self.timer_in_time() else "notarmed",
             "calls": dict(self.calls),
             "busy": bool(tasks) or bool(self.loop._ready),      # work in flight: unfinished tasks or callbacks already queued
             "torn": bool(self.tr.wire) and bool(getattr(self.tr, "fatal", None)),
             "consultedOK": self.consulted_ok(),
         }
+
+    def timer_in_time(self):
+        """A timer counts as armed when it will fire within the request timeout of the last byte received (or of the start
+        of the connection): one that is due years from now does not disconnect a silent peer "within the request timeout"."""
+        nt = self.loop.next_timer()
+        if nt is None:
+            return False
+        limit = float(getattr(srvproto, "REQUEST_TIMEOUT", 30.0))
+        return nt <= max(getattr(self, "t_last_data", 0.0), getattr(self, "t_start", 0.0)) + limit + 1e-6
 
     def consulted_ok(self):
         """C04: every component was consulted with the real peer address, the request URL (without Titan
